@@ -554,6 +554,7 @@ Definition first_bad (text : string) (p : pobs) : string :=
     else if has_flag "fmtpanic" (po_flags p) then "format_error-panicked"
     else if has_flag "msgpanic" (po_flags p) then "report-message-panicked"
     else if has_flag "emptyreport" (po_flags p) then "empty-error-report"
+    else if has_flag "ioread" (po_flags p) then "parser-issued-read-system-calls"
     else if negb (is_nil (po_flags p)) then "unexpected-flag"
     else match po_tag p with
          | TgOk => "tree-with-error-ranges"
